@@ -119,7 +119,7 @@ def main():
             subprocess.call(["git", "-C", "/repo", "worktree", "remove", "--force", wt])
             shutil.rmtree(wt, ignore_errors=True)
             json.dump(results, open(res_path, "w"), indent=1, sort_keys=True)
-    shutil.rmtree(os.path.join(VERIF, "replays"), ignore_errors=True)
+    shutil.rmtree(os.path.join(VERIF, "replays_scratch"), ignore_errors=True)
 
 
 if __name__ == "__main__":
